@@ -226,7 +226,8 @@ bool Instance::setup_environment(unsigned int flags) {
     env->successor_script = successor_script;
     env->pretend_valid_map = pretend_valid_map;
     env->pretend_valid_pubkeys = pretend_valid_pubkeys;
-    env->done &= successor_script.size() == 0;
+    // an empty script does not end the session while a scriptPubKey or the taproot commitment check is still pending
+    env->done &= successor_script.size() == 0 && !tce;
     env->execdata = execdata;
     env->tce = tce;
 
